@@ -301,7 +301,7 @@ def run_inproc_cases(impl, cases, nproc=NPROC, repeat=1):
             d = os.path.join(work, "c%d" % i); os.makedirs(d)
             materialize(c, d)
             argv, env = argv_env(c)
-            lines.append(json.dumps({"args": argv, "env": env, "cwd": d, "sink": c["sink"] if c.get("sink") is not None else -1}))
+            lines.append(json.dumps({"args": argv, "env": env, "cwd": d, "sink": c["sink"] if c.get("sink") is not None else -1, "faults": c.get("read_faults") or {}}))
         lines = [l for l in lines for _ in range(repeat)]
         env = _covenv(dict(PATH="/usr/bin:/bin", HOME=work, HR_VERIF_SERVE="1", TZ="UTC"))
         outs = run_sharded(impl["hr_verif"], lines, env=env, nproc=nproc)
